@@ -204,6 +204,91 @@ def run_keys(eng, p):
     return "hit" if hit else "miss"
 
 
+# ===================================================== (i-b) byte coverage
+class RArr:
+    """a large 1-D uint8 array of SYMBOLIC length: only byte ranges are
+    tracked (which bytes reach the hash?)"""
+
+    def __init__(self, lo, hi, n):
+        self.lo, self.hi, self.n = lo, hi, n
+        self.dtype = np.dtype(np.uint8)
+        self.ndim = 1
+
+    @property
+    def size(self):
+        return self.hi - self.lo
+
+    @property
+    def shape(self):
+        return (self.size,)
+
+    def __len__(self):
+        return int(self.size)
+
+    def reshape(self, *a):
+        return self
+
+    def ravel(self):
+        return self
+
+    def flatten(self):
+        return self
+
+    def view(self, dt):
+        return self
+
+    def __getitem__(self, k):
+        from vf.symx import smax, smin
+        if not isinstance(k, slice) or k.step not in (None, 1):
+            raise NotImplementedError("RArr index %r" % (k,))
+        size = self.size
+        a = 0 if k.start is None else k.start
+        b = size if k.stop is None else k.stop
+        a = smin(smax(a, 0), size)
+        b = smin(smax(b, a), size)
+        return RArr(self.lo + a, self.lo + b, self.n)
+
+
+class RangeMD5:
+    def __init__(self):
+        self.ranges, self.other = [], []
+
+    def update(self, x):
+        if isinstance(x, RArr):
+            self.ranges.append((x.lo, x.hi))
+        else:
+            self.other.append(bytes(x))
+
+    def hexdigest(self):
+        return "digest"
+
+
+def run_coverage(eng, p):
+    """every byte of an array argument of ANY size enters the key"""
+    from vf.symx import srange
+    n = eng.int("n")
+    eng.assume((n >= 0) & (n <= p["nmax"]))
+    npx = SymNP(ascontiguousarray=lambda a: a)
+    npx.ndarray = (np.ndarray, RArr)
+    ns = shadow(CM, np=npx, range=srange)
+    Cache = ns["Cache"]
+    c = Cache.__new__(Cache)
+    c.ahash = RangeMD5()
+    arr = RArr(SInt(z3.IntVal(0)), n, n)
+    c._update_hash(arr)
+    rs = c.ahash.ranges
+    eng.prove(z3.BoolVal(len(rs) >= 1), "array data reaches the hash")
+    if rs:
+        conds = [toint(rs[0][0]) == 0, toint(rs[-1][1]) == n.e]
+        for (a, b), (a2, b2) in zip(rs, rs[1:]):
+            conds.append(toint(b) == toint(a2))
+        for a, b in rs:
+            conds.append(toint(a) <= toint(b))
+        eng.prove(z3.And(conds), "the hashed byte ranges tile the whole "
+                  "array (no element is left out of the key)")
+    return "ok"
+
+
 # ============================================================ (ii) FIFO step
 def run_fifo(eng, p):
     """arbitrary valid cache state, one call"""
@@ -510,6 +595,7 @@ def run_case(name, params):
     eng = Engine(timeout_ms=20000)
     k = params["kind_"]
     fn = {"keys": run_keys, "fifo": run_fifo, "alias": run_alias,
+          "coverage": run_coverage,
           "nanwrap": run_nanwrap, "lazy": run_lazy,
           "filecache": run_filecache}[k]
     eng.explore(lambda e: fn(e, params))
@@ -530,6 +616,9 @@ ARG_POOL = [
 def cases(tier, seed):
     out = []
     rnd = random.Random(seed)
+    out.append(("array of any size: every element reaches the key",
+                dict(kind_="coverage",
+                     nmax=20000 if tier == "quick" else 200000)))
     # (i) single-argument pairs: every pair of pool members
     for a, b in itertools.combinations_with_replacement(ARG_POOL, 2):
         out.append(("keys 1arg %s | %s" % (a, b), dict(
@@ -608,10 +697,43 @@ def _conc_arg(spec, vals, tag):
                 for i, s in enumerate(spec[1])]
 
 
+def replay_coverage(vals):
+    """two arrays of the model's size that differ only in ONE element must
+    not share a cache entry (every position is tried at the ends)"""
+    Cache = real(CM, "Cache")
+    Cache.clear_cache()
+    n = int(vals.get("n", 5000) or 0)
+
+    def total(a):
+        """doc"""
+        return float(a.sum())
+    cached = Cache(total)
+    rs = np.random.RandomState(1)
+    for size in sorted({n, n + 1, 2 * n + 1} - {0}):
+        base = rs.rand(size)
+        for pos in sorted({0, size // 2, size - 1}):
+            Cache.clear_cache()
+            other = base.copy()
+            other[pos] += 1.0
+            r1 = cached(base)
+            r2 = cached(other)
+            if r2 == r1:
+                Cache.clear_cache()
+                return {"reproduced": True,
+                        "key": "Cache|array-elements-not-in-key",
+                        "detail": "arrays of %d elements differing only at "
+                        "index %d share one cache entry" % (size, pos)}
+    Cache.clear_cache()
+    return {"reproduced": False, "key": "not-reproduced",
+            "detail": "every tried element influences the key (n=%d)" % n}
+
+
 def replay(case, params, v):
     vals = v.get("values") or {}
     p = params
     k = p["kind_"]
+    if k == "coverage":
+        return replay_coverage(vals)
     fails = []
     if k == "keys":
         Cache = real(CM, "Cache")
